@@ -434,7 +434,10 @@ func supervise(id, level string, watchdog time.Duration) int {
 	os.Chmod(scratch, 0o755)
 	os.Chmod(work, 0o777)
 	cmd := exec.Command(os.Args[0], os.Args[1:]...)
-	cmd.Env = append(os.Environ(), "VERIF_CHILD="+id, "VERIF_SCRATCH="+work)
+	// race-instrumented children (and the race-instrumented helpers they start, which inherit it through
+	// testscript's GORACE pass-through): keep going after a report, log to files, no 1 s sleep at exit
+	cmd.Env = append(os.Environ(), "VERIF_CHILD="+id, "VERIF_SCRATCH="+work,
+		"GORACE=halt_on_error=0 exitcode=0 atexit_sleep_ms=0 log_path="+filepath.Join(work, "race"))
 	cmd.Stdout = outF
 	cmd.Stderr = errF
 	cmd.SysProcAttr = &syscall.SysProcAttr{Setpgid: true}
